@@ -151,24 +151,41 @@ pub fn run(run: &mut Run) {
     core.push(Op::Undo);
     core.push(Op::Redo);
     let all_seeds: Vec<&'static str> = seeds::SEEDS.to_vec();
-    let mut plans: Vec<(HistCfg, usize, &str)> = vec![
-        (HistCfg { seeds: all_seeds.clone(), alphabet: full.clone(), depth: 1 }, 1, "full+undo/redo"),
-        (HistCfg { seeds: if thorough { all_seeds.clone() } else { vec!["basic"] }, alphabet: full.clone(), depth: 2 }, 2, "full+undo/redo"),
+    let mut plans: Vec<(HistCfg, usize, &str, Vec<Op>)> = vec![
+        (HistCfg { seeds: all_seeds.clone(), alphabet: full.clone(), depth: 1 }, 1, "full+undo/redo", vec![]),
+        (HistCfg { seeds: if thorough { all_seeds.clone() } else { vec!["basic"] }, alphabet: full.clone(), depth: 2 }, 2, "full+undo/redo", vec![]),
+        // every pair of operations followed by an undo (in the thorough tier from every seed and also followed by undo, redo):
+        // what a later undo restores depends on what the replica built two steps earlier
+        (HistCfg { seeds: if thorough { all_seeds.clone() } else { vec!["basic"] }, alphabet: full.clone(), depth: 2 }, 2, if thorough { "full+undo/redo, then undo" } else { "full+undo/redo x core+undo/redo, then undo" }, vec![Op::Undo]),
     ];
     if thorough {
-        plans.push((HistCfg { seeds: vec!["basic"], alphabet: core.clone(), depth: 3 }, 3, "core+undo/redo"));
-        plans.push((HistCfg { seeds: vec!["empty"], alphabet: core.clone(), depth: 3 }, 3, "core+undo/redo"));
+        plans.push((HistCfg { seeds: vec!["basic"], alphabet: core.clone(), depth: 3 }, 3, "core+undo/redo", vec![]));
+        plans.push((HistCfg { seeds: vec!["empty"], alphabet: core.clone(), depth: 3 }, 3, "core+undo/redo", vec![]));
+        plans.push((HistCfg { seeds: vec!["basic"], alphabet: full.clone(), depth: 2 }, 2, "full+undo/redo, then undo, redo", vec![Op::Undo, Op::Redo]));
     } else {
         // depth 3 over a reduced interaction alphabet: every third core operation plus undo and redo
         let mut small: Vec<Op> = core.iter().step_by(3).cloned().collect();
         small.push(Op::Undo);
         small.push(Op::Redo);
-        plans.push((HistCfg { seeds: vec!["basic"], alphabet: small, depth: 3 }, 3, "core/3+undo/redo"));
+        plans.push((HistCfg { seeds: vec!["basic"], alphabet: small, depth: 3 }, 3, "core/3+undo/redo", vec![]));
     }
     let mut outcomes = std::collections::HashSet::new();
     let mut bounds = vec![];
-    for (cfg, len, name) in &plans {
-        let (outs, st, errs) = hist::explore(cfg, *len, &judge_word);
+    for (cfg, len, name, suffix) in &plans {
+        let (outs, st, errs) = hist::explore(cfg, *len, &|seed, word| {
+            if suffix.is_empty() {
+                judge_word(seed, word)
+            } else {
+                // quick tier: the operation before the suffix ranges over the interaction alphabet only
+                if !thorough && !core.contains(word.last().unwrap()) {
+                    return None;
+                }
+                let mut w = word.to_vec();
+                w.extend(suffix.iter().cloned());
+                judge_word(seed, &w)
+            }
+        });
+        let len = &(*len + suffix.len());
         for e in errs {
             run.machinery_errors.push(e);
         }
